@@ -920,7 +920,7 @@ def from_text(
                 # compressed names in the wire format, which is an error,
                 # there being no reasonable context to decompress with.
                 #
-                rwire = rdata.to_wire()
+                rwire = rdata.to_wire(origin=origin)
                 if rwire != grdata.data:
                     raise dns.exception.SyntaxError(
                         "compressed data in "
